@@ -453,7 +453,10 @@ class Checker:
             for vb, vc in zip(rb["outs"], rc["outs"]):
                 if vc._value is not None and (vb._value is None or not L.values_equal(vc._value, vb._value)):
                     f = run_["plan"][p]
-                    if f.get("payload") in ("wrong-dtype", "wrong-dtype-other-values") and set(f) <= {"kind", "payload", "idx"}:
+                    if f.get("payload") in ("wrong-dtype", "wrong-dtype-other-values") and set(f) <= {"kind", "payload", "idx"} and vb._value is not None:
+                        # (only where the fault-free result was attached: then the real result has the inferred element type, so the
+                        # payload - another element type - certainly does not conform; where the REAL result is itself of another type,
+                        # e.g. the float64 Mean of LayerNormalization, the "wrong" type may happen to be the right one)
                         # the backend's result had ANOTHER element type than the inferred one - detectable, so nothing may be attached;
                         # here something was (coerced?), and it is not the fault-free value
                         self.impl_fail(self.pfx + "/nonconforming-result-accepted",
